@@ -313,7 +313,7 @@ impl Prop for C16 {
     }
     fn plan(&self, tier: Tier) -> Plan {
         match tier {
-            Tier::Quick => Plan { cases: 120_000, tape_len: 260 },
+            Tier::Quick => Plan { cases: 250_000, tape_len: 260 },
             Tier::Thorough => Plan { cases: 4_000_000, tape_len: 380 },
         }
     }
